@@ -409,7 +409,120 @@ func (c *Ctx) encodeFamilies(fn *ssa.Function) *encFunc {
 			}
 		}
 	}
+	e.splitIterationRecords(loops)
 	return e
+}
+
+// splitIterationRecords: an accumulator that receives, in every iteration of a loop, a few explicit octets
+// (a record header written as append(out, b0, b1, b2, b3)) followed by further appends (the body) carries the
+// records themselves rather than a list of separately built record buffers. The octets and segments appended
+// in one iteration are regrouped into a virtual family - exactly what
+//     rec := []byte{b0, b1, b2, b3}; rec = append(rec, body...); out = append(out, rec...)
+// would have produced - so that both ways of writing the encoder give the same tables.
+func (e *encFunc) splitIterationRecords(loops []*loopInfo) {
+	loopOf := func(b *ssa.BasicBlock) *loopInfo {
+		var best *loopInfo
+		for _, li := range loops {
+			if li.body[b] && (best == nil || len(li.body) < len(best.body)) {
+				best = li
+			}
+		}
+		return best
+	}
+	for _, fm := range append([]*family(nil), e.order...) {
+		hi := -1
+		for i, sg := range fm.Segs {
+			if !sg.InLoop || sg.Kind != "elem" {
+				continue
+			}
+			if hi < 0 || dominatesInstr(sg.Ins, fm.Segs[hi].Ins) {
+				hi = i
+			}
+		}
+		if hi < 0 {
+			continue
+		}
+		H := fm.Segs[hi]
+		li := loopOf(H.Ins.Block())
+		sl, ok := H.Src.(*ssa.Slice)
+		if !ok || li == nil {
+			continue
+		}
+		al, ok := sl.X.(*ssa.Alloc)
+		if !ok {
+			continue
+		}
+		n, _ := arrayLen(al.Type())
+		// at least one more append of the same iteration must follow the header octets
+		follows := false
+		for i, sg := range fm.Segs {
+			if i != hi && sg.InLoop && loopOf(sg.Ins.Block()) == li && dominatesInstr(H.Ins, sg.Ins) {
+				follows = true
+			}
+		}
+		if !follows {
+			continue
+		}
+		root := valueOf(H.Ins)
+		V := &family{Root: root, Name: "iter:" + root.Name(), InitLen: konst(n), X: e.x, F: e.f, Fn: e.fn}
+		e.fams[root] = V
+		e.order = append(e.order, V)
+		intoAlloc := func(st *ssa.Store) bool {
+			ia, ok := st.Addr.(*ssa.IndexAddr)
+			return ok && ia.X == ssa.Value(al)
+		}
+		var keepRows []encRow
+		for _, r := range fm.Rows {
+			st, isStore := r.Ins.(*ssa.Store)
+			d := r.Off.add(H.At, -1)
+			if isStore && intoAlloc(st) && d.isConst() && d.C >= 0 && d.C < n {
+				// a merged value (the next-payload octet chosen by if/else or switch) is one row per alternative
+				if alts := phiAlternatives(st.Val, st.Block(), 0); len(alts) > 1 {
+					for _, a := range alts {
+						V.Rows = append(V.Rows, encRow{Off: konst(d.C), Octets: 1, Val: e.x.Eval(a.val), Cond: e.c.altCond(e.f, e.x, a), Ins: st, Facts: r.Facts})
+					}
+					continue
+				}
+				r.Off = konst(d.C)
+				V.Rows = append(V.Rows, r)
+				continue
+			}
+			keepRows = append(keepRows, r)
+		}
+		fm.Rows = keepRows
+		var keep []encSeg
+		for i, sg := range fm.Segs {
+			if i == hi {
+				continue
+			}
+			if sg.InLoop && loopOf(sg.Ins.Block()) == li && dominatesInstr(H.Ins, sg.Ins) {
+				d := sg.At.add(H.At, -1)
+				if lo, _ := e.f.bounds(d, nil); lo >= 0 {
+					sg.At, sg.InLoop = d, false
+					if sg.Kind == "family" && sg.Fam != nil && sg.Fam.Parent == fm {
+						sg.Fam.Parent, sg.Fam.ParentAt = V, d
+					}
+					V.Segs = append(V.Segs, sg)
+					continue
+				}
+			}
+			keep = append(keep, sg)
+		}
+		keep = append(keep, encSeg{At: H.At, Src: root, Kind: "family", Fam: V, Cond: H.Cond, Ins: H.Ins, InLoop: true})
+		fm.Segs = keep
+		V.Parent, V.ParentAt = fm, H.At
+		// the temporary array of the explicit octets is V's fixed part, not a record of its own
+		if afm, ok := e.fams[al]; ok {
+			var order []*family
+			for _, o := range e.order {
+				if o != afm {
+					order = append(order, o)
+				}
+			}
+			e.order = order
+			delete(e.fams, al)
+		}
+	}
 }
 
 func (e *encFunc) classifySeg(seg *encSeg, into *family, facts []Fact) {
@@ -798,6 +911,25 @@ func (c *Ctx) classifyLen(e *encFunc, fm *family, r encRow, l leaf) string {
 			}
 			// element count of a pointer list
 			return "len:" + c.symOffset(f, x, f.SliceLen(arg))
+		}
+	}
+	if l.Kind == "arith" && l.V != nil && fm != nil {
+		// the value equals the final length of the record's family (its fixed part plus everything appended to
+		// it): the record length, computed before the record is assembled
+		total := e.familyFinalLen(fm)
+		if _, open := total.T[-1]; !open && len(fm.Segs) > 0 {
+			got := f.pin(f.LFOf(l.V), r.Facts)
+			if got.key() == f.pin(total, r.Facts).key() {
+				onlyFields := true
+				for a := range got.T {
+					if f.fieldOfLenAtom(a) == "" {
+						onlyFields = false
+					}
+				}
+				if !onlyFields {
+					return "len(record)"
+				}
+			}
 		}
 	}
 	if l.Kind == "arith" && l.V != nil {
